@@ -12,7 +12,7 @@ fn arg(args: &[String], name: &str) -> Option<String> {
 fn main() {
     let args: Vec<String> = std::env::args().collect();
     if args.len() < 3 {
-        eprintln!("usage: lzv run <PROP> --tier quick|thorough --seed N --shard i/n --variant V --out FILE [--progress FILE] [--scale PCT] [--only IDX]");
+        eprintln!("usage: lzv run <PROP> --tier quick|thorough --seed N --shard i/n --variant V --out FILE [--progress FILE] [--scale PCT] [--only IDX] [--budget-s SECONDS]");
         std::process::exit(2);
     }
     let cmd = args[1].as_str();
@@ -54,6 +54,10 @@ fn main() {
             let phase = std::env::var("LZV_PHASE").is_ok();
             let n = lzv::props::n_cases(&ctx);
             let t0 = std::time::Instant::now();
+            // wall budget: after it, no further case is started (the cases are pure functions of
+            // (seed, idx), so every prefix is a valid exploration; what was left out is reported)
+            let budget: Option<f64> = arg(&args, "--budget-s").and_then(|s| s.parse().ok());
+            let mut not_started = 0u64;
             let mut idx = si;
             if let Some(from) = arg(&args, "--from").and_then(|s| s.parse::<u64>().ok()) {
                 while idx < from {
@@ -61,6 +65,13 @@ fn main() {
                 }
             }
             while idx < n {
+                if let Some(b) = budget {
+                    // the deterministic steering block at the start of every check always runs
+                    if idx >= 64 && t0.elapsed().as_secs_f64() > b {
+                        not_started = (n - idx).div_ceil(sn);
+                        break;
+                    }
+                }
                 if only.is_none() || only == Some(idx) {
                     shard.mark(idx);
                     if phase {
@@ -94,6 +105,7 @@ fn main() {
             let mut extra = lzv::props::summary_extra(&ctx);
             extra.push(("wall_s".into(), format!("{:.3}", t0.elapsed().as_secs_f64())));
             extra.push(("n_cases".into(), format!("{n}")));
+            extra.push(("x_cases_not_started_wall_budget".into(), format!("{not_started}")));
             shard.finish(&extra);
             // library worker threads end asynchronously after their object is dropped: wait for
             // them (under Miri a worker that can never end shows up as a deadlock right here)
